@@ -1754,7 +1754,7 @@ func (x *c16Runner) multiFile(sig *c16Sig) {
 		_, _, ast, cerr := syntax.ParseSourceBytes([]byte(t1), filepath.Join(dir, "call2.mro"), mroPaths, false)
 		if cerr != nil || ast == nil || ast.Call == nil || ast.Call.DecId != sc.callable {
 			r.violate(Violation{Kind: "property", Key: "C16:include:regenerated-text-does-not-compile",
-				What: fmt.Sprintf("text -> data (mro_file %q) -> text': text' does not compile to a call of %s: %v", d1.Include, sc.callable, cerr),
+				What:  fmt.Sprintf("text -> data (mro_file %q) -> text': text' does not compile to a call of %s: %v", d1.Include, sc.callable, cerr),
 				Input: in, Impl: t1})
 			continue
 		}
